@@ -689,7 +689,7 @@ Definition ztensormul_steps (σ : store Z) (ta tb : nat) (axesA axesB : list Z) 
         | Ok σ3 =>
           match tm_prep σ3 ib (axesB ++ notB) shO with
           | Ok σ4 =>
-            match zdot σ4 ia ib with
+            match lres_outcome σ4 (m_matmul Z 0 Z.add Z.mul σ4 ia ib LSafe) with
             | (σ5, RNew _ p) =>
               match m_reshape Z σ5 p retShape with
               | Ok (σ6, false) =>
@@ -739,7 +739,7 @@ Lemma ztensormul_chain σ ta tb axesA axesB a b σ1 σ2 σ3 σ4 σ5 σ6 ia ib p 
           [Z.quot (size (shp (d_ap a))) (size (exts (shp (d_ap a)) axesA)); size (exts (shp (d_ap a)) axesA)] = Ok σ3 ->
   tm_prep σ3 ib (axesB ++ free_axes (length (shp (d_ap b))) axesB)
           [size (exts (shp (d_ap a)) axesA); Z.quot (size (shp (d_ap b))) (size (exts (shp (d_ap a)) axesA))] = Ok σ4 ->
-  zdot σ4 ia ib = (σ5, RNew Z p) ->
+  lres_outcome σ4 (m_matmul Z 0 Z.add Z.mul σ4 ia ib LSafe) = (σ5, RNew Z p) ->
   m_reshape Z σ5 p (match exts (shp (d_ap a)) (free_axes (length (shp (d_ap a))) axesA) ++
                            exts (shp (d_ap b)) (free_axes (length (shp (d_ap b))) axesB)
                      with [] => [1] | s => s end) = Ok (σ6, false) ->
@@ -795,95 +795,42 @@ Proof.
   intros Hp Hs Hq. unfold MemProofs.cell. rewrite Hs, <- rk_dot, rk_unrank by assumption. reflexivity.
 Qed.
 
-Lemma is_vector2 r c : is_vector [r; c] = ((c =? 1) && (1 <? r)) || ((r =? 1) && (1 <? c)).
-Proof. unfold is_vector, is_colvec, is_rowvec. cbn [length Nat.eqb]. apply orb_false_r. Qed.
-
-(* zdot on the two prepared operands of TensorMul (contiguous fA x n2 and n2 x fB): in all four
-   dispatch cases the result is a fresh contiguous tensor of fA*fB cells whose cell i*fB+j is the
-   (i,j) entry of the matrix product.  Either n2 > 1 (then a vector-shaped operand has free size
-   one, which is the case Dot's vector branches handle), or no operand is vector-shaped. *)
-Lemma zdot_prepared σ ta tb A B fA n2 fB :
+(* MatMul on the two prepared operands of TensorMul (contiguous fA x n2 and n2 x fB, ANY extents
+   >= 1: MatMul only asks for rank 2, so k x 1, 1 x k and 1 x 1 operands are matrices like all others):
+   the result is a fresh contiguous tensor of fA*fB cells whose cell i*fB+j is the (i,j) entry of
+   the matrix product *)
+Lemma matmul_prepared σ ta tb A B fA n2 fB :
   get_t Z σ ta = Some A -> get_t Z σ tb = Some B ->
   1 <= fA -> 1 <= n2 -> 1 <= fB ->
   plain2 A fA n2 -> plain2 B n2 fB ->
-  1 < n2 \/ (is_vector [fA; n2] = false /\ is_vector [n2; fB] = false) ->
   in_buf Z σ A -> in_buf Z σ B ->
-  exists σ' P, zdot σ ta tb = (σ', RNew Z (length (tens Z σ))) /\
+  exists σ' P, lres_outcome σ (m_matmul Z 0 Z.add Z.mul σ ta tb LSafe) = (σ', RNew Z (length (tens Z σ))) /\
     tens Z σ' = tens Z σ ++ [P] /\
     d_buf P = length (bufs Z σ) /\ rm_tensor σ' P /\ d_view P = false /\ d_len P = fA * fB /\
     (forall i j, 0 <= i < fA -> 0 <= j < fB -> win_get Z σ' P (i * fB + j) = Some (zmm_sum σ A B n2 i j)) /\
     length (bufs Z σ') = S (length (bufs Z σ)) /\
     (forall q, (q < length (bufs Z σ))%nat -> get_buf Z σ' q = get_buf Z σ q).
 Proof.
-  intros Ha Hb HfA Hn2 HfB Pa Pb HG Ia Ib.
-  pose proof Pa as (OldA & ShA & StA & CmA & LenA). pose proof Pb as (OldB & ShB & StB & CmB & LenB).
-  (* reading the vector-shaped operands as matrices *)
-  assert (VeltA : fA = 1 -> forall l, velt Z 0 σ A l = entv Z 0 σ A 0 l).
-  { intros -> l. unfold velt, entv, ent, OpsProofs.cell. rewrite StA. cbn [dot]. do 2 f_equal. ring. }
-  assert (VeltB : fB = 1 -> forall l, velt Z 0 σ B l = entv Z 0 σ B l 0).
-  { intros -> l. unfold velt, entv, ent, OpsProofs.cell. rewrite StB. cbn [dot]. do 2 f_equal. ring. }
-  destruct (is_vector [fA; n2]) eqn:VA; destruct (is_vector [n2; fB]) eqn:VB.
-  - (* vector . vector *)
-    assert (Hn : 1 < n2) by (destruct HG as [H|[H _]]; [exact H|discriminate]).
-    rewrite is_vector2 in VA, VB. assert (fA = 1) by lia. assert (fB = 1) by lia. subst fA fB.
-    pose proof (zdot_vecvec σ ta tb A B n2 Ha Hb) as E. rewrite ShA, ShB in E.
-    specialize (E ltac:(rewrite is_vector2; lia) ltac:(rewrite is_vector2; lia) ltac:(lia) ltac:(lia) ltac:(lia) Ia Ib).
-    cbv zeta in E.
-    eexists. eexists. split; [exact E|]. cbn [tens bufs].
-    split; [reflexivity|]. split; [reflexivity|]. split.
-    { unfold rm_tensor. cbn [d_ap d_len d_old d_off d_buf shp str ord]. unfold get_buf. cbn [bufs].
-      rewrite MemProofs.nth_app_last. repeat split; try reflexivity; try constructor; cbn; lia. }
-    split; [reflexivity|]. split; [reflexivity|]. split.
-    { intros i j Hi Hj. assert (i = 0) by lia. assert (j = 0) by lia. subst i j.
-      unfold win_get. cbn [d_len d_off d_buf]. unfold get_buf. cbn [bufs]. rewrite MemProofs.nth_app_last.
-      change (0 * 1 + 0) with 0. change ((0 <? 0) || (1 <=? 0)) with false. cbv iota.
-      match goal with |- zget [?v] _ = _ => change (zget [v] (0 + 0)) with (Some v) end.
-      f_equal. unfold zmm_sum, mm_sum. f_equal. apply map_ext. intro l.
-      rewrite (VeltA eq_refl), (VeltB eq_refl). reflexivity. }
-    split; [rewrite app_length; cbn [length]; lia|].
-    intros q Hq. unfold get_buf. cbn [bufs]. apply app_nth1. exact Hq.
-  - (* vector . matrix *)
-    assert (Hn : 1 < n2) by (destruct HG as [H|[H _]]; [exact H|discriminate]).
-    rewrite is_vector2 in VA, VB. assert (fA = 1) by lia. subst fA. assert (HfB2 : 2 <= fB) by lia.
-    destruct (zdot_vecmat σ ta tb A B n2 fB Ha Hb ltac:(lia) HfB2) as
-      (σ' & p & E & Ht & Hbuf & Hoff & Hview & Hsp & Hstp & Hlp & Hcp & Hop & Ip & Hv & Hlb & Hold); try assumption.
-    { rewrite ShA. right. right. split; [exact Hn|reflexivity]. }
-    { lia. }
-    exists σ', p. split; [exact E|]. split; [exact Ht|]. split; [exact Hbuf|]. split.
-    { destruct Ip as [I0 I1]. unfold rm_tensor. rewrite Hsp, Hstp, Hlp. cbn [calc_strides size].
-      repeat split; try assumption; try reflexivity; try lia. repeat constructor; lia. }
-    split; [exact Hview|]. split; [lia|]. split; [|split; [exact Hlb|exact Hold]].
-    intros i j Hi Hj. assert (i = 0) by lia. subst i.
-    specialize (Hv j Hj). unfold OpsProofs.cell in Hv. rewrite Hstp in Hv. cbn [dot] in Hv.
-    replace (0 * fB + j) with (1 * j + 0) by ring. rewrite Hv. f_equal.
-    unfold ztv_sum, zmm_sum, mm_sum. f_equal. apply map_ext. intro l.
-    rewrite (VeltA eq_refl). apply Z.mul_comm.
-  - (* matrix . vector *)
-    assert (Hn : 1 < n2) by (destruct HG as [H|[_ H]]; [exact H|discriminate]).
-    pose proof VA as VA'. rewrite is_vector2 in VA', VB. assert (fB = 1) by lia. subst fB.
-    destruct (zdot_matvec σ ta tb A B fA n2 Ha Hb HfA Hn2 (or_introl Pa) VA) as
-      (σ' & p & E & Ht & Hbuf & Hoff & Hview & Hsp & Hstp & Hlp & Hcp & Hop & Ip & Hv & Hlb & Hold); try assumption.
-    { rewrite ShB. right. left. split; [exact Hn|reflexivity]. }
-    { lia. }
-    exists σ', p. split; [exact E|]. split; [exact Ht|]. split; [exact Hbuf|]. split.
-    { destruct Ip as [I0 I1]. unfold rm_tensor. rewrite Hsp, Hstp, Hlp. cbn [calc_strides size].
-      repeat split; try assumption; try reflexivity; try lia. repeat constructor; lia. }
-    split; [exact Hview|]. split; [lia|]. split; [|split; [exact Hlb|exact Hold]].
-    intros i j Hi Hj. assert (j = 0) by lia. subst j.
-    specialize (Hv i Hi). unfold OpsProofs.cell in Hv. rewrite Hstp in Hv. cbn [dot] in Hv.
-    replace (i * 1 + 0) with (1 * i + 0) by ring. rewrite Hv. f_equal.
-    unfold mv_sum, zmm_sum, mm_sum. f_equal. apply map_ext. intro l.
-    rewrite (VeltB eq_refl). reflexivity.
-  - (* matrix . matrix *)
-    destruct (zdot_matmat σ ta tb A B fA fB n2 Ha Hb HfA HfB Hn2 (or_introl Pa) (or_introl Pb) VA VB Ia Ib)
-      as (σ' & p & E & Ht & Hbuf & Hoff & Hview & Pp & Ip & Hv & Hlb & Hold).
-    pose proof Pp as (Hop & Hsp & Hstp & Hcp & Hlp).
-    exists σ', p. split; [exact E|]. split; [exact Ht|]. split; [exact Hbuf|]. split.
-    { destruct Ip as [I0 I1]. rewrite Hlp in I1. unfold rm_tensor. rewrite Hsp, Hstp, Hlp. cbn [calc_strides size].
-      rewrite !Z.mul_1_r. repeat split; try assumption; try reflexivity. repeat constructor; lia. }
-    split; [exact Hview|]. split; [exact Hlp|]. split; [|split; [exact Hlb|exact Hold]].
-    intros i j Hi Hj. specialize (Hv i j Hi Hj). unfold ent, OpsProofs.cell in Hv. rewrite Hstp in Hv.
-    cbn [dot] in Hv. replace (i * fB + j) with (fB * i + (1 * j + 0)) by ring. exact Hv.
+  intros Ha Hb HfA Hn2 HfB Pa Pb Ia Ib.
+  pose proof Pa as (_ & ShA & _ & CmA & _). pose proof Pb as (_ & ShB & _ & _ & _).
+  destruct (m_matmul_safe Z 0 Z.add Z.mul σ ta tb A B fA fB n2 Ha Hb HfA HfB Hn2 (or_introl Pa) (or_introl Pb) Ia Ib)
+    as (σ1 & p & E & Hbuf & Pp & Ip & Hv & Ht & Hlb & Hold).
+  (* the fresh result is not a view *)
+  assert (Hview : d_view p = false).
+  { unfold m_matmul in E. rewrite Ha, Hb, ShA, ShB in E.
+    replace (n2 =? n2) with true in E by lia. cbn [negb] in E.
+    rewrite (prep_dest_new Z 0 σ A [fA; fB] LSafe) in E by (congruence || exact CmA).
+    destruct (eng_matmul Z 0 Z.add Z.mul (zstore Z 0 σ [fA; fB]) A B (nd_dense Z σ [fA; fB])) as [σ2|]; [|discriminate].
+    cbn [finish_l] in E. injection E as _ <-. reflexivity. }
+  rewrite E. cbn [lres_outcome add_t]. rewrite Ht.
+  pose proof Pp as (Hop & Hsp & Hstp & Hcp & Hlp).
+  exists (mkStore Z (bufs Z σ1) (tens Z σ ++ [p])), p.
+  split; [reflexivity|]. split; [reflexivity|]. split; [exact Hbuf|]. split.
+  { destruct Ip as [I0 I1]. rewrite Hlp in I1. unfold rm_tensor. rewrite Hsp, Hstp, Hlp. cbn [calc_strides size].
+    rewrite !Z.mul_1_r. repeat split; try assumption; try reflexivity. repeat constructor; lia. }
+  split; [exact Hview|]. split; [exact Hlp|]. split; [|split; [exact Hlb|exact Hold]].
+  intros i j Hi Hj. specialize (Hv i j Hi Hj). unfold ent, OpsProofs.cell in Hv. rewrite Hstp in Hv.
+  cbn [dot] in Hv. replace (i * fB + j) with (fB * i + (1 * j + 0)) by ring. exact Hv.
 Qed.
 
 Lemma idx_bound i l fA n2 : 0 <= i < fA -> 0 <= l < n2 -> 0 <= i * n2 + l < size [fA; n2].
@@ -1048,6 +995,8 @@ Proof.
     apply cell_buf_eq. destruct Ext1 as [E1b _]. apply E1b. apply (wf_dense_buf_lt Z σ b Wb).
 Qed.
 
+(* THE GENERAL CONTRACTION, for ALL axis choices and all extents >= 1: no guard on the contracted
+   extents (they may multiply to 1: outer products, contracted unit axes, full contractions) *)
 Theorem ztensormul_spec σ ta tb a b axesA axesB :
   get_t Z σ ta = Some a -> get_t Z σ tb = Some b ->
   rm_tensor σ a -> rm_tensor σ b ->
@@ -1060,7 +1009,6 @@ Theorem ztensormul_spec σ ta tb a b axesA axesB :
   let ka := exts (shp (d_ap a)) axesA in
   let ret1 := exts (shp (d_ap a)) (free_axes na axesA) in
   let ret2 := exts (shp (d_ap b)) (free_axes nb axesB) in
-  (1 < size ka \/ (is_vector [size ret1; size ka] = false /\ is_vector [size ka; size ret2] = false)) ->
   exists σ' dp,
     ztensormul σ ta tb axesA axesB = (σ', RNew Z (length (tens Z σ))) /\
     tens Z σ' = tens Z σ ++ [dp] /\
@@ -1074,7 +1022,7 @@ Theorem ztensormul_spec σ ta tb a b axesA axesB :
                (map (fun kc => zat σ a (place_go 0 na axesA kc ca) * zat σ b (place_go 0 nb axesB kc cb))
                     (coords ka)) 0)).
 Proof.
-  intros Ha Hb Ra Rb NdA NdB HrA HrB Hlen Hk na nb ka ret1 ret2 HG.
+  intros Ha Hb Ra Rb NdA NdB HrA HrB Hlen Hk na nb ka ret1 ret2.
   destruct (tm_prepared σ ta tb a b axesA axesB Ha Hb Ra Rb NdA NdB HrA HrB Hlen Hk)
     as (Pr1 & Pka & Pr2 & σ1 & σ2 & σ3 & σ4 & da' & db' & C1 & C2 & PR1 & PR2 & Gda4 & Gdb4 & Pa' & Pb' & Ia' & Ib'
         & Lt4' & Lbuf4 & Told4 & Bold4 & CellA & CellB).
@@ -1085,7 +1033,7 @@ Proof.
   assert (HfB : 1 <= fB) by (apply size_pos; exact Pr2).
   assert (Hn2 : 1 <= n2) by (apply size_pos; exact Pka).
   (* (iv) the product of the two prepared clones *)
-  destruct (zdot_prepared σ4 n (S n) da' db' fA n2 fB Gda4 Gdb4 HfA Hn2 HfB Pa' Pb' HG Ia' Ib')
+  destruct (matmul_prepared σ4 n (S n) da' db' fA n2 fB Gda4 Gdb4 HfA Hn2 HfB Pa' Pb' Ia' Ib')
     as (σ5 & P & DOT & Tens5 & BP & RP & VP & LenP & EntP & Lb5 & Bold5).
   rewrite Lt4' in DOT.
   (* (v) the final reshape *)
@@ -1170,7 +1118,6 @@ Theorem ztensormul_matrix_case σ ta tb a b m k n :
   get_t Z σ ta = Some a -> get_t Z σ tb = Some b ->
   1 <= m -> 1 <= k -> 1 <= n ->
   plain2 a m k -> plain2 b k n -> in_buf Z σ a -> in_buf Z σ b ->
-  is_vector [m; k] = false -> is_vector [k; n] = false ->
   exists σ' dp,
     ztensormul σ ta tb [1] [0] = (σ', RNew Z (length (tens Z σ))) /\
     tens Z σ' = tens Z σ ++ [dp] /\
@@ -1179,14 +1126,14 @@ Theorem ztensormul_matrix_case σ ta tb a b m k n :
     (forall q, (q < length (bufs Z σ))%nat -> get_buf Z σ' q = get_buf Z σ q) /\
     (forall i j, 0 <= i < m -> 0 <= j < n -> ent Z σ' dp i j = Some (zmm_sum σ a b k i j)).
 Proof.
-  intros Ha Hb Hm Hk Hn Pa Pb Ia Ib Va Vb.
+  intros Ha Hb Hm Hk Hn Pa Pb Ia Ib.
   pose proof (plain2_rm σ a m k Hm Hk Pa Ia) as Ra. pose proof (plain2_rm σ b k n Hk Hn Pb Ib) as Rb.
   destruct Pa as (_ & Hsa & _). destruct Pb as (_ & Hsb & _).
   pose proof (ztensormul_spec σ ta tb a b [1] [0] Ha Hb Ra Rb) as H. cbv zeta in H. rewrite Hsa, Hsb in H.
   change (free_axes (length [m; k]) [1]) with [0] in H. change (free_axes (length [k; n]) [0]) with [1] in H.
   change (exts [m; k] [1]) with [k] in H. change (exts [m; k] [0]) with [m] in H.
   change (exts [k; n] [0]) with [k] in H. change (exts [k; n] [1]) with [n] in H.
-  cbn [size app length] in H. rewrite !Z.mul_1_r in H.
+  cbn [size app length] in H.
   destruct H as (σ' & dp & E & Ht & Hs & Hst & Ho & Hv & Hc & Hbf & Hold & Hcell).
   { constructor; [intros []|constructor]. }
   { constructor; [intros []|constructor]. }
@@ -1194,7 +1141,6 @@ Proof.
   { intros x [<-|[]]. lia. }
   { reflexivity. }
   { reflexivity. }
-  { right. split; assumption. }
   exists σ', dp. split; [exact E|]. split; [exact Ht|]. split; [exact Hs|].
   split; [rewrite Hst, Hs; cbn [calc_strides size]; rewrite Z.mul_1_r; reflexivity|].
   repeat (split; [assumption|]).
@@ -1347,172 +1293,6 @@ Lemma zapply_reuse_reads_destination_refuted :
 Proof. vm_compute. repeat split. Qed.
 
 (* ====================================================================================== *)
-(*  D3.4  WHAT THE MODEL MAKES FALSE: a contraction whose contracted extents multiply to 1   *)
-(*  (in particular NO contracted axes = the outer product) is REFUSED with an error as soon  *)
-(*  as one free part has more than one element: the reshaped operands are then vector-shaped *)
-(*  the "wrong way" for Dot's dispatch (column vector . row vector, 1x1 . vector, ...)       *)
-(* ====================================================================================== *)
-Lemma ztensormul_chain_dot_err σ ta tb axesA axesB a b σ1 σ2 σ3 σ4 σ5 ia ib :
-  get_t Z σ ta = Some a -> get_t Z σ tb = Some b ->
-  length axesA = length axesB ->
-  (forall x, In x axesA -> 0 <= x < Z.of_nat (length (shp (d_ap a)))) ->
-  (forall x, In x axesB -> 0 <= x < Z.of_nat (length (shp (d_ap b)))) ->
-  exts (shp (d_ap a)) axesA = exts (shp (d_ap b)) axesB ->
-  size (exts (shp (d_ap a)) axesA) <> 0 ->
-  m_clone Z σ ta = Ok (σ1, ia) ->
-  m_clone Z σ1 tb = Ok (σ2, ib) ->
-  tm_prep σ2 ia (free_axes (length (shp (d_ap a))) axesA ++ axesA)
-          [Z.quot (size (shp (d_ap a))) (size (exts (shp (d_ap a)) axesA)); size (exts (shp (d_ap a)) axesA)] = Ok σ3 ->
-  tm_prep σ3 ib (axesB ++ free_axes (length (shp (d_ap b))) axesB)
-          [size (exts (shp (d_ap a)) axesA); Z.quot (size (shp (d_ap b))) (size (exts (shp (d_ap a)) axesA))] = Ok σ4 ->
-  zdot σ4 ia ib = (σ5, RErr Z) ->
-  ztensormul σ ta tb axesA axesB = (σ, RErr Z).
-Proof.
-  intros Ha Hb Hlen HrA HrB Hk Hn2 C1 C2 P1 P2 D.
-  rewrite ztensormul_unfold. unfold ztensormul_steps. rewrite Ha, Hb. cbv zeta.
-  unfold zlen. rewrite !Nat2Z.id.
-  rewrite Hlen, Nat.eqb_refl. cbn [negb].
-  rewrite (range_forallb _ _ HrA), (range_forallb _ _ HrB). cbn [negb orb].
-  rewrite <- Hk, list_eqb_refl. cbn [negb].
-  replace (size (exts (shp (d_ap a)) axesA) =? 0) with false by lia.
-  rewrite C1, C2, P1, P2, D. reflexivity.
-Qed.
-
-Lemma ztensormul_chain_reshape_refused σ ta tb axesA axesB a b σ1 σ2 σ3 σ4 σ5 σ6 ia ib p :
-  get_t Z σ ta = Some a -> get_t Z σ tb = Some b ->
-  length axesA = length axesB ->
-  (forall x, In x axesA -> 0 <= x < Z.of_nat (length (shp (d_ap a)))) ->
-  (forall x, In x axesB -> 0 <= x < Z.of_nat (length (shp (d_ap b)))) ->
-  exts (shp (d_ap a)) axesA = exts (shp (d_ap b)) axesB ->
-  size (exts (shp (d_ap a)) axesA) <> 0 ->
-  m_clone Z σ ta = Ok (σ1, ia) ->
-  m_clone Z σ1 tb = Ok (σ2, ib) ->
-  tm_prep σ2 ia (free_axes (length (shp (d_ap a))) axesA ++ axesA)
-          [Z.quot (size (shp (d_ap a))) (size (exts (shp (d_ap a)) axesA)); size (exts (shp (d_ap a)) axesA)] = Ok σ3 ->
-  tm_prep σ3 ib (axesB ++ free_axes (length (shp (d_ap b))) axesB)
-          [size (exts (shp (d_ap a)) axesA); Z.quot (size (shp (d_ap b))) (size (exts (shp (d_ap a)) axesA))] = Ok σ4 ->
-  zdot σ4 ia ib = (σ5, RNew Z p) ->
-  m_reshape Z σ5 p (match exts (shp (d_ap a)) (free_axes (length (shp (d_ap a))) axesA) ++
-                           exts (shp (d_ap b)) (free_axes (length (shp (d_ap b))) axesB)
-                     with [] => [1] | s => s end) = Ok (σ6, true) ->
-  ztensormul σ ta tb axesA axesB = (σ, RErr Z).
-Proof.
-  intros Ha Hb Hlen HrA HrB Hk Hn2 C1 C2 P1 P2 D R.
-  rewrite ztensormul_unfold. unfold ztensormul_steps. rewrite Ha, Hb. cbv zeta.
-  unfold zlen. rewrite !Nat2Z.id.
-  rewrite Hlen, Nat.eqb_refl. cbn [negb].
-  rewrite (range_forallb _ _ HrA), (range_forallb _ _ HrB). cbn [negb orb].
-  rewrite <- Hk, list_eqb_refl. cbn [negb].
-  replace (size (exts (shp (d_ap a)) axesA) =? 0) with false by lia.
-  rewrite C1, C2, P1, P2, D, R. reflexivity.
-Qed.
-
-(* Dot on a column vector and a 1x1 matrix: b.T() is a no-op, b.MatVecMul(a) refuses the shapes *)
-Lemma zdot_colvec_1x1_err σ ta tb A B fA :
-  get_t Z σ ta = Some A -> get_t Z σ tb = Some B -> 1 < fA ->
-  plain2 A fA 1 -> plain2 B 1 1 -> exists σ', zdot σ ta tb = (σ', RErr Z).
-Proof.
-  intros Ha Hb HfA (_ & ShA & _) (OldB & ShB & _).
-  unfold zdot. rewrite Ha, Hb, ShA, ShB. cbn [is_scalar orb]. rewrite !is_vector2.
-  replace ((1 =? 1) && (1 <? fA) || (fA =? 1) && (1 <? 1)) with true by lia.
-  replace ((1 =? 1) && (1 <? 1) || (1 =? 1) && (1 <? 1)) with false by lia.
-  cbn [length Nat.eqb].
-  assert (ET : m_T Z σ tb [] = Ok σ).
-  { unfold m_T. rewrite Hb. rewrite ap_T_noop_scalar_equiv; [reflexivity|rewrite ShB; reflexivity|left; reflexivity]. }
-  rewrite ET.
-  assert (EM : m_matvec Z 0 Z.add Z.mul σ tb ta LSafe = (σ, LErr)).
-  { unfold m_matvec. rewrite Hb, Ha, ShB, ShA. rewrite is_vector2.
-    replace ((1 =? 1) && (1 <? fA) || (fA =? 1) && (1 <? 1)) with true by lia. cbn [negb].
-    unfold is_colvec. replace ((1 =? 1) && (1 <? fA)) with true by lia.
-    change (znth 0 [fA; 1] 0) with fA. replace (fA =? 1) with false by lia. reflexivity. }
-  rewrite EM. cbn [lres_outcome]. unfold m_UT. rewrite Hb. eexists. reflexivity.
-Qed.
-
-(* Dot on a 1x1 matrix and a row vector: a.MatVecMul(b) refuses the shapes *)
-Lemma zdot_1x1_rowvec_err σ ta tb A B fB :
-  get_t Z σ ta = Some A -> get_t Z σ tb = Some B -> 1 < fB ->
-  plain2 A 1 1 -> plain2 B 1 fB -> zdot σ ta tb = (σ, RErr Z).
-Proof.
-  intros Ha Hb HfB (_ & ShA & _) (_ & ShB & _).
-  unfold zdot. rewrite Ha, Hb, ShA, ShB. cbn [is_scalar orb]. rewrite !is_vector2.
-  replace ((1 =? 1) && (1 <? 1) || (1 =? 1) && (1 <? 1)) with false by lia.
-  replace ((fB =? 1) && (1 <? 1) || (1 =? 1) && (1 <? fB)) with true by lia.
-  cbn [length Nat.eqb].
-  assert (EM : m_matvec Z 0 Z.add Z.mul σ ta tb LSafe = (σ, LErr)).
-  { unfold m_matvec. rewrite Ha, Hb, ShA, ShB. rewrite is_vector2.
-    replace ((fB =? 1) && (1 <? 1) || (1 =? 1) && (1 <? fB)) with true by lia. cbn [negb].
-    unfold is_colvec, is_rowvec. replace ((fB =? 1) && (1 <? 1)) with false by lia.
-    replace ((1 =? 1) && (1 <? fB)) with true by lia.
-    change (znth 0 [1; fB] 1) with fB. replace (fB =? 1) with false by lia. reflexivity. }
-  rewrite EM. reflexivity.
-Qed.
-
-Theorem ztensormul_unit_contraction_refused σ ta tb a b axesA axesB :
-  get_t Z σ ta = Some a -> get_t Z σ tb = Some b ->
-  rm_tensor σ a -> rm_tensor σ b ->
-  NoDup axesA -> NoDup axesB ->
-  (forall x, In x axesA -> 0 <= x < Z.of_nat (length (shp (d_ap a)))) ->
-  (forall x, In x axesB -> 0 <= x < Z.of_nat (length (shp (d_ap b)))) ->
-  length axesA = length axesB ->
-  exts (shp (d_ap a)) axesA = exts (shp (d_ap b)) axesB ->
-  let na := length (shp (d_ap a)) in let nb := length (shp (d_ap b)) in
-  let ka := exts (shp (d_ap a)) axesA in
-  let ret1 := exts (shp (d_ap a)) (free_axes na axesA) in
-  let ret2 := exts (shp (d_ap b)) (free_axes nb axesB) in
-  size ka = 1 -> (1 < size ret1 \/ 1 < size ret2) ->
-  ztensormul σ ta tb axesA axesB = (σ, RErr Z).
-Proof.
-  intros Ha Hb Ra Rb NdA NdB HrA HrB Hlen Hk na nb ka ret1 ret2 Hn1 HG.
-  destruct (tm_prepared σ ta tb a b axesA axesB Ha Hb Ra Rb NdA NdB HrA HrB Hlen Hk)
-    as (Pr1 & Pka & Pr2 & σ1 & σ2 & σ3 & σ4 & da' & db' & C1 & C2 & PR1 & PR2 & Gda4 & Gdb4 & Pa' & Pb' & Ia' & Ib'
-        & Lt4' & Lbuf4 & Told4 & Bold4 & _ & _).
-  fold na nb ka ret1 ret2 in Pr1, Pka, Pr2, C1, C2, PR1, PR2, Gda4, Gdb4, Pa', Pb', Lt4', Told4.
-  set (fA := size ret1) in *. set (fB := size ret2) in *. rewrite Hn1 in *.
-  set (n := length (tens Z σ)) in *.
-  assert (HfA : 1 <= fA) by (apply size_pos; exact Pr1).
-  assert (HfB : 1 <= fB) by (apply size_pos; exact Pr2).
-  assert (Hne : (1 : Z) <> 0) by discriminate.
-  assert (Hcases : (1 < fA /\ fB = 1) \/ (fA = 1 /\ 1 < fB) \/ (1 < fA /\ 1 < fB)) by (clear - HfA HfB HG; lia).
-  destruct Hcases as [[H1 H2]|[[H1 H2]|[H1 H2]]].
-  - (* column vector . 1x1 *)
-    rewrite H2 in *.
-    destruct (zdot_colvec_1x1_err σ4 n (S n) da' db' fA Gda4 Gdb4 H1 Pa' Pb') as (σ5 & D).
-    apply (ztensormul_chain_dot_err σ ta tb axesA axesB a b σ1 σ2 σ3 σ4 σ5 n (S n) Ha Hb Hlen HrA HrB Hk);
-      fold na nb ka ret1 ret2; try rewrite Hn1; assumption.
-  - (* 1x1 . row vector *)
-    rewrite H1 in *.
-    pose proof (zdot_1x1_rowvec_err σ4 n (S n) da' db' fB Gda4 Gdb4 H2 Pa' Pb') as D.
-    apply (ztensormul_chain_dot_err σ ta tb axesA axesB a b σ1 σ2 σ3 σ4 σ4 n (S n) Ha Hb Hlen HrA HrB Hk);
-      fold na nb ka ret1 ret2; try rewrite Hn1; assumption.
-  - (* column vector . row vector: a length mismatch, or an inner product that cannot be reshaped *)
-    pose proof Pa' as (_ & ShA & _ & _ & LenA). pose proof Pb' as (_ & ShB & _ & _ & LenB).
-    assert (VA : is_vector (shp (d_ap da')) = true) by (rewrite ShA, is_vector2; clear - H1; lia).
-    assert (VB : is_vector (shp (d_ap db')) = true) by (rewrite ShB, is_vector2; clear - H2; lia).
-    destruct (Z.eq_dec fA fB) as [Eq|Ne].
-    + pose proof (zdot_vecvec σ4 n (S n) da' db' fA Gda4 Gdb4 VA VB) as D.
-      specialize (D ltac:(rewrite LenA; ring) ltac:(rewrite LenB, Eq; ring) ltac:(clear - HfA; lia) Ia' Ib').
-      cbv zeta in D. rewrite Lt4' in D.
-      match type of D with _ = (?s5, _) => set (σ5 := s5) in D end.
-      eapply (ztensormul_chain_reshape_refused σ ta tb axesA axesB a b σ1 σ2 σ3 σ4 σ5 σ5 n (S n) (S (S n)) Ha Hb Hlen HrA HrB Hk);
-        fold na nb ka ret1 ret2; try rewrite Hn1; try assumption.
-      apply (reshape_refuses Z σ5 (S (S n)) (mkDense (length (bufs Z σ4)) 0 1 (mkAP [] [] 0 true) None false)).
-      * unfold σ5, get_t. cbn [tens]. rewrite <- Lt4'. apply MemProofs.nth_error_app_last.
-      * cbn [d_ap shp size].
-        assert (Hs : size (match ret1 ++ ret2 with [] => [1] | s => s end) = fA * fB).
-        { destruct (ret1 ++ ret2) eqn:Er.
-          - pose proof (size_app ret1 ret2) as Hs. rewrite Er in Hs. fold fA fB in Hs. cbn [size] in Hs |- *.
-            clear - Hs. lia.
-          - rewrite <- Er. apply size_app. }
-        rewrite Hs. clear - H1 H2. nia.
-    + assert (D : zdot σ4 n (S n) = (σ4, RErr Z)).
-      { unfold zdot. rewrite Gda4, Gdb4, VA, VB.
-        rewrite (is_vector_not_scalar _ VA), (is_vector_not_scalar _ VB). cbn [orb].
-        replace (d_len da' =? d_len db') with false by (rewrite LenA, LenB; clear - Ne; lia). reflexivity. }
-      apply (ztensormul_chain_dot_err σ ta tb axesA axesB a b σ1 σ2 σ3 σ4 σ4 n (S n) Ha Hb Hlen HrA HrB Hk);
-        fold na nb ka ret1 ret2; try rewrite Hn1; assumption.
-Qed.
-
-(* ====================================================================================== *)
 (*  concrete stores for the examples (V := Z), built by the library's own constructors        *)
 (* ====================================================================================== *)
 Module Ex.
@@ -1538,23 +1318,28 @@ Definition res_vals (r : store Z * outcome Z) : list (res Z) :=
   match r with (σ, RNew _ t) => logical Z σ t | _ => [] end.
 End Ex.
 
-(* the refusals of D3.4 on concrete operands, next to what the SPEC demands:
+(* D3.4  contractions whose contracted extents multiply to 1 (Dot's shape dispatch used to refuse or
+   mis-shape them; MatMul treats k x 1, 1 x k and 1 x 1 operands as matrices), next to the SPEC:
    (1) a = 2x1, b = 1x3, axes [1],[0];  (2) the outer product of [1 2] and [4 5 6], no axes;
-   (3) a = 1x1, b = 1x5, axes [1],[0];  (4) a = 3x1, b = 1x3 (equal lengths: an inner product
-   is computed and then cannot be reshaped to 3x3) *)
-Lemma tensormul_unit_contraction_refused_examples :
-  (let σ := Ex.mk2 [2; 1] [1; 2] [1; 3] [4; 5; 6] in
-   ztensormul σ 0 1 [1] [0] = (σ, RErr Z) /\
+   (3) a = 1x1, b = 1x5, axes [1],[0];  (4) a = 3x1, b = 1x3;
+   (5) the full contraction of the vectors [1 2 3] and [4 5 6], axes [0],[0]: shape [1], value 32.
+   Each time: RNew 2 (the table grows by one entry), the documented shape, the SPEC's values. *)
+Lemma tensormul_unit_contraction_examples :
+  (let r := ztensormul (Ex.mk2 [2; 1] [1; 2] [1; 3] [4; 5; 6]) 0 1 [1] [0] in
+   snd r = RNew Z 2 /\ Ex.res_shape r = [2; 3] /\ Ex.res_vals r = map Ok [4; 5; 6; 8; 10; 12] /\
    Ex.spec_tm (Ex.spec2 [2; 1] [1; 2] [1; 3] [4; 5; 6]) [1] [0] = Some ([2; 3], [4; 5; 6; 8; 10; 12])) /\
-  (let σ := Ex.mk2 [2] [1; 2] [3] [4; 5; 6] in
-   ztensormul σ 0 1 [] [] = (σ, RErr Z) /\
+  (let r := ztensormul (Ex.mk2 [2] [1; 2] [3] [4; 5; 6]) 0 1 [] [] in
+   snd r = RNew Z 2 /\ Ex.res_shape r = [2; 3] /\ Ex.res_vals r = map Ok [4; 5; 6; 8; 10; 12] /\
    Ex.spec_tm (Ex.spec2 [2] [1; 2] [3] [4; 5; 6]) [] [] = Some ([2; 3], [4; 5; 6; 8; 10; 12])) /\
-  (let σ := Ex.mk2 [1; 1] [3] [1; 5] [1; 2; 3; 4; 5] in
-   ztensormul σ 0 1 [1] [0] = (σ, RErr Z) /\
+  (let r := ztensormul (Ex.mk2 [1; 1] [3] [1; 5] [1; 2; 3; 4; 5]) 0 1 [1] [0] in
+   snd r = RNew Z 2 /\ Ex.res_shape r = [1; 5] /\ Ex.res_vals r = map Ok [3; 6; 9; 12; 15] /\
    Ex.spec_tm (Ex.spec2 [1; 1] [3] [1; 5] [1; 2; 3; 4; 5]) [1] [0] = Some ([1; 5], [3; 6; 9; 12; 15])) /\
-  (let σ := Ex.mk2 [3; 1] [1; 2; 3] [1; 3] [4; 5; 6] in
-   ztensormul σ 0 1 [1] [0] = (σ, RErr Z) /\
-   Ex.spec_tm (Ex.spec2 [3; 1] [1; 2; 3] [1; 3] [4; 5; 6]) [1] [0] = Some ([3; 3], [4; 5; 6; 8; 10; 12; 12; 15; 18])).
+  (let r := ztensormul (Ex.mk2 [3; 1] [1; 2; 3] [1; 3] [4; 5; 6]) 0 1 [1] [0] in
+   snd r = RNew Z 2 /\ Ex.res_shape r = [3; 3] /\ Ex.res_vals r = map Ok [4; 5; 6; 8; 10; 12; 12; 15; 18] /\
+   Ex.spec_tm (Ex.spec2 [3; 1] [1; 2; 3] [1; 3] [4; 5; 6]) [1] [0] = Some ([3; 3], [4; 5; 6; 8; 10; 12; 12; 15; 18])) /\
+  (let r := ztensormul (Ex.mk2 [3] [1; 2; 3] [3] [4; 5; 6]) 0 1 [0] [0] in
+   snd r = RNew Z 2 /\ Ex.res_shape r = [1] /\ Ex.res_vals r = map Ok [32] /\
+   Ex.spec_tm (Ex.spec2 [3] [1; 2; 3] [3] [4; 5; 6]) [0] [0] = Some ([1], [32])).
 Proof. vm_compute. repeat split. Qed.
 
 (* ---- two small facts for the record ---- *)
